@@ -242,3 +242,35 @@ Qed.
 Example bytewise_order_witness :
   sort_str ["text"; "Uuid"; "Integer"; "Text"] = ["Integer"; "Text"; "Uuid"; "text"].
 Proof. vm_compute. reflexivity. Qed.
+
+(* ---------- SQLModel: `text` is imported iff some column renders text("...") — for ALL defaults ---------- *)
+(* the helper that decides the import (default_uses_text) and the if-chain of render_column agree on every string *)
+Theorem default_uses_text_spec s : default_uses_text s = kind_is_text (sqlmodel_default_kind s).
+Proof.
+  unfold default_uses_text, sqlmodel_default_kind.
+  destruct (contains_char "("%char s); [reflexivity|].
+  destruct (String.eqb s "true"); [reflexivity|].
+  destruct (String.eqb s "false"); [reflexivity|].
+  destruct (starts_with "'" s); [reflexivity|].
+  destruct (starts_with """" s); [reflexivity|].
+  destruct (looks_f64 s); reflexivity.
+Qed.
+
+Theorem sqlmodel_text_import_iff t :
+  sqlmodel_needs_text t = true <-> exists c, In c (t_columns t) /\ sqlmodel_column_uses_text c = true.
+Proof.
+  unfold sqlmodel_needs_text. rewrite existsb_exists. split; intros [c [Hc H]]; exists c; split; auto.
+  - unfold sqlmodel_column_uses_text. destruct (c_default c); [|discriminate]. now rewrite <- default_uses_text_spec.
+  - unfold sqlmodel_column_uses_text in H. destruct (c_default c); [|discriminate]. now rewrite default_uses_text_spec.
+Qed.
+
+(* ... and the import line names `text` exactly then *)
+Theorem sqlmodel_sa_line_text t :
+  sqlmodel_needs_text t = true <-> exists l, sqlmodel_sa_line t = [l] /\ ends_with "text" l = true.
+Proof.
+  unfold sqlmodel_sa_line.
+  destruct (existsb is_composite_index (t_constraints t)), (existsb is_composite_unique (t_constraints t)),
+           (sqlmodel_needs_text t); cbn [app]; split; intro H; try discriminate; try reflexivity;
+    try (eexists; split; [reflexivity | vm_compute; reflexivity]);
+    try (destruct H as [l [E X]]; try discriminate; injection E as <-; vm_compute in X; discriminate).
+Qed.
